@@ -240,8 +240,10 @@ def run(tier: str, seed: int, workers: int):
         for e1 in ev:
             shards.append((tier, [e1], 2, "cold"))  # depth 3 without initial bounds
     else:
+        for e1, e2 in itertools.product(EVENTS, EVENTS):
+            shards.append(("quick", [e1, e2], 3, "warm"))  # depth 5 over the quick alphabet (first element selects the alphabet)
         for e1, e2 in itertools.product(ev, ev):
-            shards.append((tier, [e1, e2], 3, "warm"))  # depth 5
+            shards.append((tier, [e1, e2], 2, "warm"))  # depth 4 over the larger alphabet
         for e1, e2 in itertools.product(ev, ev):
             shards.append((tier, [e1, e2], 2, "cold"))
     for e1, e2 in itertools.product(DEEP_EVENTS, DEEP_EVENTS):
@@ -252,7 +254,7 @@ def run(tier: str, seed: int, workers: int):
         random.Random(seed).shuffle(shards)
     acc = pmap_acc(shard, shards, workers)
     meta = {
-        "rule": "every history to depth 4 (quick) / 5 (thorough) over the event menu {regular proposal (2 actors: preferred -300/300/2000, "
+        "rule": "every history to depth 4 (quick) / 5 (thorough; depth 4 for the events only the thorough menu has) over the event menu {regular proposal (2 actors: preferred -300/300/2000, "
         "bounds-only, 50), operating-point proposal (-300/0/500, withdrawal; thorough also 200 and a regular withdrawal), system bounds widen / shrink / shift / back / unavailable, "
         "distribution result Success / PartialFailure / Error for the latest request and a late PartialFailure for the previous one, expiry (+61 s)} from a warm start (bounds +-1000 delivered, one regular "
         "and one operating-point report subscription) and to depth 3-4 from a cold start (no bounds yet); plus every history to depth 5 (quick) / 7 over a reduced alphabet of 7 events "
